@@ -176,15 +176,17 @@ var c05Fields = []fieldDef{
 // ---------- the structured world ----------
 //
 //   W/zf.yaml                         outside (canary)
-//   W/zw/zf.yaml                       outside (canary)
-//   W/zw/out/{zf.yaml, zd/zf.yaml, zlid -> ../top, zlod -> zd}            outside (canary), no kustomization
+//   W/zw/zf.yaml                      outside (canary)
 //   W/zw/R  for R in top, mid, base, sib:
 //       kustomization.yaml cm.yaml tp.yaml gp.yaml zf.yaml
 //       zd/{kustomization.yaml cm.yaml zf.yaml zd/zf.yaml
-//           zlid -> zd   zlod -> <abs W>/zw/out   zlif -> ../zf.yaml   zlof -> <abs W>/zw/out/zf.yaml}
-//       zlid -> zd   zlod -> ../out   zlif -> zd/zf.yaml   zlof -> ../out/zf.yaml
-//   W/zw/klo/kustomization.yaml -> ../out/kust.yaml   (a root whose kustomization file is a link to the outside)
-//   W/zw/kli/kustomization.yaml -> real.yaml          (… to a file inside)
+//           zlid -> zd   zlod -> <abs W>/zw/R-evil   zlif -> ../zf.yaml   zlof -> <abs W>/zw/R-evil/zf.yaml}
+//       zlid -> zd   zlod -> ../R-evil   zlif -> zd/zf.yaml   zlof -> ../R-evil/zf.yaml
+//   W/zw/R-evil/{zf.yaml, kust.yaml, zd/zf.yaml, zlid -> ../R, zlod -> zd}     outside (canary), no kustomization.
+//       The name of the outside directory extends the root's name: a string-prefix containment test
+//       (instead of a component-wise one) would take it for a part of the root.
+//   W/zw/klo/kustomization.yaml -> ../top-evil/kust.yaml   (a root whose kustomization file is a link to the outside)
+//   W/zw/kli/kustomization.yaml -> real.yaml               (… to a file inside)
 //
 // Directories that may become roots (they hold a kustomization file): top, mid, base, sib, R/zd, klo, kli.
 
@@ -228,15 +230,16 @@ func buildWorld(f fieldDef, prefix []string, links bool) *world {
 	in := func(id string) string { return f.content(id, "inside-"+id) }
 	t.addFile(aFile, can("w0"))
 	t.addFile("zw/"+aFile, can("w1"))
-	t.addFile("zw/out/"+aFile, can("out"))
-	t.addFile("zw/out/"+aDir+"/"+aFile, can("outd"))
-	t.addFile("zw/out/kust.yaml", "namePrefix: "+c05Canary+"-\nresources:\n- cm.yaml\n")
-	if links {
-		t.addLink("zw/out/"+aLid, "../top")
-		t.addLink("zw/out/"+aLod, aDir)
-	}
 	for _, r := range c05Roots {
 		b := "zw/" + r + "/"
+		ev := "zw/" + r + "-evil/"
+		t.addFile(ev+aFile, can(r+"-evil"))
+		t.addFile(ev+aDir+"/"+aFile, can(r+"-evil-d"))
+		t.addFile(ev+"kust.yaml", "namePrefix: "+c05Canary+"-\nresources:\n- cm.yaml\n")
+		if links {
+			t.addLink(ev+aLid, "../"+r)
+			t.addLink(ev+aLod, aDir)
+		}
 		t.addFile(b+"kustomization.yaml", "resources:\n- cm.yaml\n")
 		t.addFile(b+"cm.yaml", cmYaml)
 		t.addFile(b+"tp.yaml", "# placeholder\n")
@@ -248,18 +251,18 @@ func buildWorld(f fieldDef, prefix []string, links bool) *world {
 		t.addFile(b+aDir+"/"+aDir+"/"+aFile, in(r+"-dd"))
 		if links {
 			t.addLink(b+aLid, aDir)
-			t.addLink(b+aLod, "../out")
+			t.addLink(b+aLod, "../"+r+"-evil")
 			t.addLink(b+aLif, aDir+"/"+aFile)
-			t.addLink(b+aLof, "../out/"+aFile)
+			t.addLink(b+aLof, "../"+r+"-evil/"+aFile)
 			t.addLink(b+aDir+"/"+aLid, aDir)
-			t.addLink(b+aDir+"/"+aLod, absW+"/zw/out")
+			t.addLink(b+aDir+"/"+aLod, absW+"/zw/"+r+"-evil")
 			t.addLink(b+aDir+"/"+aLif, "../"+aFile)
-			t.addLink(b+aDir+"/"+aLof, absW+"/zw/out/"+aFile)
+			t.addLink(b+aDir+"/"+aLof, absW+"/zw/"+r+"-evil/"+aFile)
 		}
 	}
 	if links {
 		t.addFile("zw/klo/cm.yaml", cmYaml)
-		t.addLink("zw/klo/kustomization.yaml", "../out/kust.yaml")
+		t.addLink("zw/klo/kustomization.yaml", "../top-evil/kust.yaml")
 		t.addFile("zw/kli/cm.yaml", cmYaml)
 		t.addFile("zw/kli/real.yaml", "resources:\n- cm.yaml\n")
 		t.addLink("zw/kli/kustomization.yaml", "real.yaml")
@@ -292,7 +295,7 @@ func (w *world) atoms(depth int) []atom {
 		out = append(out, atom{text: aLid, isLink: true}, atom{text: aLod, isLink: true},
 			atom{text: aLif, term: true, isLink: true}, atom{text: aLof, term: true, isLink: true})
 	}
-	out = append(out, atom{text: root, first: true}, atom{text: absOf(w.abs("zw", "out")), first: true})
+	out = append(out, atom{text: root, first: true}, atom{text: root + "-evil", first: true})
 	return out
 }
 
